@@ -42,6 +42,27 @@ func genCaseC08(t *rapid.T) *c08Case {
 
 func applyConfigC08(base *Case, cf uconfig) *Case {
 	c := applyConfig(base, cf)
+	// there is no Resolver twin of the Go type behind Query: when Query takes part in abstract types
+	// it is served by reflection (a plain Resolver object has no Go type a binding could name - the
+	// interface-resolver-only configuration is outside the claim)
+	abstractQuery := false
+	for _, td := range c.Schema.Types {
+		switch td.Kind {
+		case hx.KUnion:
+			for _, m := range td.Members {
+				abstractQuery = abstractQuery || m == "Query"
+			}
+		case hx.KObject:
+			abstractQuery = abstractQuery || (td.Name == "Query" && len(td.Interfaces) > 0)
+		}
+	}
+	if abstractQuery {
+		for _, n := range c.Graph.Nodes {
+			if n.Type == "Query" && c.Assign[n.ID] == "R" {
+				c.Assign[n.ID] = "X"
+			}
+		}
+	}
 	// objects served by Resolver-implementing Go types need their type registered to take part in
 	// abstract-type dispatch
 	seen := map[string]bool{}
